@@ -52,6 +52,7 @@ pub const STRESS: &[&str] = &[
     "#ifdef \"FOO\nclass A;\n#define !foo\n#ifndef @\ndef a;\n#endif\n#define [{ never closed\n",
     "#define\n#ifdef\n#ifndef /* c */ $1\n#else\n#endif\n#endif\n#ifdef 99999999999999999999999\nclass A;\n#define ..\n",
     "class A;\n#ifdef X\nclass B : A;\n#else\nclass C : A {\n#endif\n}\ndef d : C;\n#ifndef X\n",
+    "#ifdef UNDEF\n#ifdef INNER\nclass X;\n#else\nclass Y;\n#endif\nclass Z;\n#ifndef OTHER\ndef q : X;\n#endif\n#endif\nclass W;\n#ifdef UNDEF2\n#ifndef I2\n",
     "def d { int a = !cast(1); int b = !isa(d); int c = !exists(\"d\"); int e = !getdagop((d)); dag f = !setdagop<int>((d), d); }\n",
 ];
 
@@ -160,13 +161,21 @@ impl SwCheck {
         let case = case_of(w, state);
         ctx.current_json(&case);
         ctx.feature(&format!("state:{}", state));
+        // lexing / parsing / include collection under the hook step budget: non-progress is decided logically
+        let total: u64 = w.files.iter().map(|f| f.1.len() as u64).sum();
+        syntax::verif::arm(400 * (total + 64));
         let loaded = guard(|| ws::load(w));
+        syntax::verif::disarm();
         let l = match loaded {
             Ok(l) => l,
             Err(pi) => {
                 ctx.eval();
                 if self.mode == SMode::Totality {
-                    ctx.panic_violation("set_root:", &pi, case);
+                    if pi.is_budget() {
+                        ctx.violation("set_root:non-progress", "parsing / collecting the workspace exhausted its step budget (a loop stopped consuming input)".to_string(), case);
+                    } else {
+                        ctx.panic_violation("set_root:", &pi, case);
+                    }
                 }
                 return;
             }
@@ -198,6 +207,8 @@ impl SwCheck {
         let mut cfg = gprog::Cfg::default_for(&mut rng);
         cfg.statements = rng.range(3, 8);
         cfg.dead_use = rng.chance(1, 4);
+        cfg.paste_head_var = true;
+        cfg.paste_names = true;
         let p = gprog::generate(&mut rng, cfg);
         let mut w = p.workspace();
         if rng.chance(1, 3) {
